@@ -178,8 +178,9 @@ def build_jobs(rng, per_codemod: int, variants_per_seed: int, only=None, include
 
 def run_jobs(ctx, jobs, workers=12, timeout=900):
     """Run every job in a worker subprocess (harness/e2e_worker.py) importing the implementation from core.REPO."""
-    d = ctx.scratch / "e2e"
-    d.mkdir(exist_ok=True)
+    ctx._e2e_calls = getattr(ctx, "_e2e_calls", 0) + 1
+    d = ctx.scratch / f"e2e{ctx._e2e_calls}"      # one directory per call: job/out files are never reused
+    d.mkdir()
 
     def one(i_job):
         i, job = i_job
@@ -194,7 +195,7 @@ def run_jobs(ctx, jobs, workers=12, timeout=900):
         try:
             p = subprocess.run([core.PY, "-m", "harness.e2e_worker", str(jf), str(of), str(wd)], env=env, cwd=str(core.VERIF),
                                stdout=subprocess.PIPE, stderr=subprocess.PIPE, timeout=timeout)
-            if of.exists():
+            if p.returncode == 0 and of.exists():
                 return json.loads(of.read_text())
             return {"codemod": job["codemod"], "worker_error": p.stderr.decode(errors="replace")[-2000:], "subprojects": []}
         except subprocess.TimeoutExpired:
